@@ -333,7 +333,11 @@ def run_shard(spec, R):
             ang = float(rng.uniform(-0.6, 0.6))
             anchor = [int(rng.integers(0, shape[0])), int(rng.integers(0, shape[1]))]
             drive("rotation", darsia.RotationCorrection(anchor=anchor, rotations=[ang]), inputs(rng, shape, fdtype, ALL))
-            drive("rotation_neutral", darsia.RotationCorrection(anchor=anchor, rotations=[0.0]), inputs(rng, shape, fdtype, ALL), neutral=True)
+            rot0 = darsia.RotationCorrection(anchor=anchor, rotations=[0.0])
+            drive("rotation_neutral", rot0, inputs(rng, shape, fdtype, ALL), neutral=True)
+            # the same (used) object then serves images of the transposed shape (same number of voxels, other extents)
+            if shape[0] != shape[1] and min(anchor) < min(shape):
+                drive("rotation_neutral_reused_on_transposed_shape", rot0, inputs(rng, shape[::-1], fdtype, ["array2", "scalar", "scalar_series"]), neutral=True)
             # ---- translation (matrix read from file)
             tpath = os.path.join(tmpdir, f"t{rnd}.npy")
             np.save(tpath, np.array([[1, 0, int(rng.integers(-4, 5))], [0, 1, int(rng.integers(-4, 5))]], dtype=np.float32))
